@@ -107,11 +107,11 @@ class SimNet:
 
     def register(self, scheme, host, port, handler, target=None):
         """several servers may share one (scheme, host, port) and be told apart by request target
-        (path + query); target None = any target"""
-        self.servers.setdefault((scheme, host, port), {})[target] = handler
+        (path + query); target None = any target.  Host names are case-insensitive."""
+        self.servers.setdefault((scheme, host.lower(), port), {})[target] = handler
 
     def handler_for(self, c, req):
-        hs = self.servers.get((c.scheme, c.host, c.port), {})
+        hs = self.servers.get((c.scheme, c.host.lower(), c.port), {})
         return hs.get(req.target) or hs.get(None)
 
     def _op(self):
@@ -141,7 +141,7 @@ class SimNet:
                                quiet=bool(sim.in_probe))
         if fault != F_NONE:
             sim.count("fault.net." + fault)
-        if (scheme, host, port) not in self.servers:
+        if (scheme, host.lower(), port) not in self.servers:
             raise ConnectionRefusedError(111, "Connection refused (no such sim server)")
         if fault == F_REFUSED:
             raise ConnectionRefusedError(111, "Connection refused")
